@@ -246,5 +246,4 @@ def mutants(prog):
     ]
     for name, mod, fn, old, new, expect in specs:
         ov = source_sub(prog, mod, fn, old, new)
-        if ov is not None:
-            yield (name, ov, expect)
+        yield (name if ov is not None else name + " [spec does not apply]", ov, expect)
